@@ -825,6 +825,125 @@ theorem reachable_labeled_access_paths (d d' : LabeledData ι κ) (hinv : Inv d)
   obtain ⟨h1, h2, h3, h4⟩ := labeled_element_eq_iter_eq_batch d' hinv'
   exact ⟨h1, h2, h3, h4, hp⟩
 
+/-! ### histories over two datasets (elements moving between them) -/
+
+theorem splice_inv (d l r : LabeledData ι κ) (b : Nat) (hd : Inv d) (h : d.splice b = .ok (l, r)) : Inv l ∧ Inv r := by
+  obtain ⟨hwl, hwr, _, _⟩ := splice_pairs d l r b hd.1 h
+  simp only [LabeledData.splice, bind_ok, pure_ok, Prod.mk.injEq] at h
+  obtain ⟨⟨il, ir⟩, hi, ⟨ll, lr⟩, _, x, hmk, rfl, rfl⟩ := h
+  simp only [LabeledData.mk'] at hmk
+  split at hmk
+  · simp only [Except.ok.injEq] at hmk; subst hmk
+    obtain ⟨hip, hir⟩ := splice_partitioning _ _ _ _ hi
+    refine ⟨⟨hwl, ?_⟩, ⟨hwr, ?_⟩⟩
+    · show allPos il.partitioning
+      rw [hip]; exact fun x hx => hd.2 x (List.mem_of_mem_take hx)
+    · show allPos ir.partitioning
+      rw [hir]; exact fun x hx => hd.2 x (List.mem_of_mem_drop hx)
+  · simp at hmk
+
+theorem splitAtElement_inv (d l r : LabeledData ι κ) (k : Nat) (hd : Inv d) (h : d.splitAtElement k = .ok (l, r)) :
+    Inv l ∧ Inv r := by
+  simp only [LabeledData.splitAtElement, bind_ok, require_ok, ofOpt_ok] at h
+  obtain ⟨_, _, ⟨bp, bs⟩, _, sp, _, h⟩ := h
+  by_cases h0 : sp = 0
+  · simp only [h0, ne_eq, not_true_eq_false, if_false] at h
+    exact splice_inv d l r _ hd h
+  · simp only [h0, ne_eq, not_false_eq_true, if_true, bind_ok] at h
+    obtain ⟨d', hsb, hspl⟩ := h
+    obtain ⟨hwd', hpart, hk⟩ := splitBatch_WF d d' bp sp hd.1 hsb
+    have hinv' : Inv d' := ⟨hwd', by rw [hpart]; exact allPos_splitPart _ _ _ hd.2 hk⟩
+    exact splice_inv d' l r _ hinv' hspl
+
+theorem append_inv (a b : LabeledData ι κ) (ha : Inv a) (hb : Inv b) : Inv (a.append b) := by
+  refine ⟨?_, ?_⟩
+  · show (a.inputs.append b.inputs).partitioning = (a.labels.append b.labels).partitioning
+    simp only [Data.append, Data.partitioning, List.map_append]
+    have h1 : a.inputs.partitioning = a.labels.partitioning := ha.1
+    have h2 : b.inputs.partitioning = b.labels.partitioning := hb.1
+    simp only [Data.partitioning] at h1 h2
+    rw [h1, h2]
+  · show allPos (a.inputs.append b.inputs).partitioning
+    simp only [Data.append, Data.partitioning, List.map_append]
+    intro x hx
+    rcases List.mem_append.mp hx with hx | hx
+    · exact ha.2 x hx
+    · exact hb.2 x hx
+
+theorem empty_inv : Inv (LabeledData.empty : LabeledData ι κ) :=
+  ⟨rfl, fun x hx => by simp [LabeledData.empty, Data.empty, Data.partitioning] at hx⟩
+
+/-- operations on a pair of datasets: local structural operations on either one, and the two operations that
+move elements between them -/
+inductive Op2 where
+  | left (op : Op)
+  | right (op : Op)
+  | splitAt (k : Nat)          -- b = splitAtElement(a, k)   (b must be empty before)
+  | appendMove                 -- a.append(b); b = {}
+  | swap
+
+def Op2.valid (s : LabeledData ι κ × LabeledData ι κ) : Op2 → Prop
+  | .left op => op.valid s.1
+  | .right op => op.valid s.2
+  | .splitAt _ => pairs s.2 = []
+  | _ => True
+
+def Op2.apply (s : LabeledData ι κ × LabeledData ι κ) : Op2 → R (LabeledData ι κ × LabeledData ι κ)
+  | .left op => do pure (← op.apply s.1, s.2)
+  | .right op => do pure (s.1, ← op.apply s.2)
+  | .splitAt k => s.1.splitAtElement k
+  | .appendMove => pure (s.1.append s.2, LabeledData.empty)
+  | .swap => pure (s.2, s.1)
+
+inductive Reach2 : LabeledData ι κ × LabeledData ι κ → LabeledData ι κ × LabeledData ι κ → Prop where
+  | refl (s : LabeledData ι κ × LabeledData ι κ) : Reach2 s s
+  | step {s s' s'' : LabeledData ι κ × LabeledData ι κ} (op : Op2) :
+      Reach2 s s' → op.valid s' → op.apply s' = .ok s'' → Reach2 s s''
+
+/-- **ops_preserve_multiset, two datasets**: every finite history of local operations, `splitAtElement` into the
+(empty) second dataset, appending the second onto the first and swapping keeps both datasets well-formed with
+non-empty batches and keeps the multiset of all (input, label) pairs held by the two together -/
+theorem ops2_preserve_multiset (s s' : LabeledData ι κ × LabeledData ι κ) (h1 : Inv s.1) (h2 : Inv s.2)
+    (h : Reach2 s s') :
+    Inv s'.1 ∧ Inv s'.2 ∧ (pairs s'.1 ++ pairs s'.2).Perm (pairs s.1 ++ pairs s.2) := by
+  induction h with
+  | refl => exact ⟨h1, h2, List.Perm.refl _⟩
+  | @step t t' op _ hv ha ih =>
+    obtain ⟨i1, i2, hp⟩ := ih
+    cases op with
+    | left op =>
+      simp only [Op2.apply, bind_ok, pure_ok] at ha
+      obtain ⟨x, hx, rfl⟩ := ha
+      obtain ⟨hi, hpp⟩ := step_preserves _ _ op i1 hv hx
+      exact ⟨hi, i2, (hpp.append_right _).trans hp⟩
+    | right op =>
+      simp only [Op2.apply, bind_ok, pure_ok] at ha
+      obtain ⟨x, hx, rfl⟩ := ha
+      obtain ⟨hi, hpp⟩ := step_preserves _ _ op i2 hv hx
+      exact ⟨i1, hi, (hpp.append_left _).trans hp⟩
+    | splitAt k =>
+      simp only [Op2.apply] at ha
+      obtain ⟨l, r⟩ := t'
+      obtain ⟨il, ir⟩ := splitAtElement_inv _ _ _ k i1 ha
+      obtain ⟨_, _, hpairs, _⟩ := splitAtElement_pairs _ _ _ k i1.1 ha
+      have hv' : pairs t.2 = [] := hv
+      refine ⟨il, ir, ?_⟩
+      show (pairs l ++ pairs r).Perm _
+      rw [hpairs]
+      rw [hv', List.append_nil] at hp
+      exact hp
+    | appendMove =>
+      simp only [Op2.apply, pure_ok] at ha
+      subst ha
+      refine ⟨append_inv _ _ i1 i2, empty_inv, ?_⟩
+      show (pairs (t.1.append t.2) ++ pairs LabeledData.empty).Perm _
+      rw [append_pairs _ _ i1.1]
+      simpa [pairs, LabeledData.empty, Data.empty, Data.flat] using hp
+    | swap =>
+      simp only [Op2.apply, pure_ok] at ha
+      subst ha
+      exact ⟨i2, i1, List.perm_append_comm.trans hp⟩
+
 /-! ## F. class-wise repartitioning -/
 
 /-- **repartitionByClass**: whenever the call succeeds (for any label multiset — gaps included — and any
@@ -929,5 +1048,15 @@ example : Reach (⟨⟨[[1, 2], [3]], []⟩, ⟨[[7, 8], [9]], []⟩⟩ : Labele
   .step (d' := ⟨⟨[[1], [2, 3]], []⟩, ⟨[[7], [8, 9]], []⟩⟩) (.reorder [2, 0, 1])
     (.step (d' := ⟨⟨[[1, 2], [3]], []⟩, ⟨[[7, 8], [9]], []⟩⟩) (.repartition [1, 2]) (.refl _) trivial (by rfl))
     (by show [2, 0, 1].Perm (List.range 3); decide) (by rfl)
+
+example : Reach2 ((⟨⟨[[1, 2], [3]], []⟩, ⟨[[7, 8], [9]], []⟩⟩ : LabeledData Nat Nat), LabeledData.empty)
+    (⟨⟨[[1], [2], [3]], []⟩, ⟨[[7], [8], [9]], []⟩⟩, LabeledData.empty) :=
+  .step (s' := (⟨⟨[[1]], []⟩, ⟨[[7]], []⟩⟩, ⟨⟨[[2], [3]], []⟩, ⟨[[8], [9]], []⟩⟩)) .appendMove
+    (.step (s' := ((⟨⟨[[1, 2], [3]], []⟩, ⟨[[7, 8], [9]], []⟩⟩ : LabeledData Nat Nat), LabeledData.empty))
+      (.splitAt 1) (.refl _) rfl (by rfl))
+    trivial (by rfl)
+example : repartitionByClass (⟨⟨[[10, 11], [12]], []⟩, ⟨[[2, 0], [2]], []⟩⟩ : CData Nat) 2 =
+    (if optimalBatchSizes 0 2 = some [] then .ok ⟨⟨[[11], [10, 12]], []⟩, ⟨[[0], [2, 2]], []⟩⟩ else .error .undefined) := by
+  first | (simp [optimalBatchSizes]; rfl) | decide | rfl
 
 end SharkVerif.C03
